@@ -206,10 +206,6 @@ def try_getpoints(ref, scheme, degree, res, tag):
     except NotImplementedError:
         res.count('B/rejected')
         res.add('B/rejected_kinds', f'{tag}:{scheme}')
-    except TypeError as e:
-        if not is_vtk_tensor_typeerror(e, ref, scheme):
-            raise
-        res.count('known_vtk_tensor_typeerror')
     except Exception as e:
         if not is_refusal(e):
             raise
@@ -351,6 +347,12 @@ def check_other_schemes(fdims, judge, res):
             if w is not None:
                 judge.close('weights sum to volume', float(numpy.sum(w)), vol, f'{name} {scheme}{d} weight sum')
                 judge.true('weights sum to volume', len(w) == len(coords) == pts.npoints, f'{name} {scheme}{d}: npoints mismatch')
+            if scheme == 'vtk':
+                # vtk points are the vertices of the reference, each exactly once (order is VTK's cell convention)
+                verts = numpy.asarray(ref.vertices, float)
+                same = len(coords) == len(verts) and sorted(map(tuple, numpy.round(coords, 12))) == sorted(map(tuple, numpy.round(verts, 12)))
+                judge.true('vtk points are the vertices', same, f'{name} vtk: points {coords.tolist()} vs vertices {verts.tolist()}')
+                res.count('B/vtk_vertex_checks')
             if scheme == '_centroid':
                 g, _ = getpoints(ref, 'gauss', 1)
                 judge.true('centroid', len(coords) == 1, f'{name} centroid count')
